@@ -137,3 +137,18 @@ Definition C07_files_agree_needed : Prop :=
     Forall (fun b => bnum b < file_bound) (filter (fun b => bnum b <? merged_end) canon) /\
     (exists b, In b canon /\ bnum b = run_start c w) /\
     cons_fold_aside cons0 (map as_new (fst (stream_run c w ps merged_end (filter (fun b => bnum b <? merged_end) canon) forked))) = None.
+
+(* ------------------------------------------------------------------ a more familiar form of files_agree *)
+
+(* "merged files hold final blocks only, for the hub too": whenever the hub is ready every merged block is at or
+   below its LIB.  Together with eventual_tip this implies files_agree (C07_files_final_agree). *)
+Definition files_final (c : jcfg) (w : world) (merged : list block) : Prop :=
+  forall k b, h_ready (w_hub (world_after c k w)) = true -> In b merged ->
+    bnum b <= rn (libref (db (h_f (w_hub (world_after c k w))))).
+
+Definition C07_files_final_agree : Prop :=
+  forall (U : list block) (c : jcfg) (w : world) (merged_end : N) (canon : list block),
+    wf_b U = true -> lib_ok_b LNone U = true -> hub_of_universe U c w ->
+    chain_ok canon -> incl canon U -> eventual_tip c w canon ->
+    let merged := filter (fun b => bnum b <? merged_end) canon in
+    files_final c w merged -> files_agree c w merged.
